@@ -36,6 +36,8 @@ var poolPaths = []string{
 	"$[$[last]]", "$[last - 1]",
 	// non-suppressible errors raised inside subscript expressions and predicates
 	"$[$missing]", "$[0 to $missing]", "$ ? (@[$missing] == 1)", "$.a[$missing] == 1", "$[$[0].decimal(0)]", "$ ? (exists(@[$missing]))",
+	// suppressible errors raised inside subscript expressions
+	"$[$[0].double()]", "$[0, $.a]",
 	"$[*] ? (@.a.decimal(0) > 1)", "$.a.decimal(0)", "$.a.decimal(5,2000)", "$ ? (@.a == $missing || @.b == 1)",
 	// the document value as the right operand
 	"$i < $.a", "1 <= $.a", "$v == $.a", "$[*] ? ($i > @)", "$.a.b > $.a.a", "$.keyvalue() ? (@.value > 1)",
